@@ -37,3 +37,27 @@ pub fn trace_write(line: &[u8]) {
 pub fn exit_now(code: i32) -> ! {
     unsafe { libc::_exit(code) }
 }
+
+/// Number of threads of this process (from /proc/self/stat, read with direct system calls).
+pub fn thread_count() -> usize {
+    unsafe {
+        let fd = libc::syscall(libc::SYS_openat, libc::AT_FDCWD, b"/proc/self/stat\0".as_ptr(), libc::O_RDONLY | libc::O_CLOEXEC, 0) as i32;
+        if fd < 0 {
+            return 1;
+        }
+        let mut buf = [0u8; 1024];
+        let n = libc::syscall(libc::SYS_read, fd as libc::c_long, buf.as_mut_ptr(), buf.len()) as isize;
+        libc::syscall(libc::SYS_close, fd as libc::c_long);
+        if n <= 0 {
+            return 1;
+        }
+        let text = &buf[..n as usize];
+        // fields after the command name "(...)": state is field 3, num_threads is field 20
+        let close = match text.iter().rposition(|b| *b == b')') {
+            Some(i) => i,
+            None => return 1,
+        };
+        let rest = std::str::from_utf8(&text[close + 1..]).unwrap_or("");
+        rest.split_whitespace().nth(17).and_then(|s| s.parse().ok()).unwrap_or(1)
+    }
+}
